@@ -75,8 +75,8 @@ fn queries_from_set_expr<'a>(set_expr: &'a ast::SetExpr) -> Vec<&'a ast::Query> 
             .flat_map(|table_with_joins| TableWithJoins(table_with_joins).queries())
             .collect(),
         ast::SetExpr::SetOperation { .. } => vec![],
-        ast::SetExpr::Values(_values) => todo!(),
-        _ => todo!(), // Not implemented
+        // No sub-query is visited in the other kinds of query: their translation reports them as not supported
+        _ => vec![],
     }
 }
 
